@@ -6,6 +6,7 @@ import (
 	"go/constant"
 	"go/parser"
 	"go/token"
+	"go/types"
 	"path/filepath"
 	"strings"
 )
@@ -298,6 +299,122 @@ func init() {
 		}
 		w.P("/-- transport.go `ReplaceWithClosed`: the expiry callback deletes an ID only under `if h.handlers[id] == handler` -/")
 		w.P("def expiryDeletesOnlyOwnHandler : Bool := %v", guarded && !unguarded)
+
+		// 6. glue: the server connection's generator is told about exactly the two IDs the server routes to it:
+		//    connection.go newConnection: newConnIDGenerator(runner, srcConnID, &clientDestConnID, …) with clientDestConnID /
+		//    srcConnID being parameters k1 / k2; server.go: the arguments k1 / k2 of s.newConn(…) are the two IDs given to
+		//    s.tr.AddWithConnID(…).
+		cf, err := parse("connection.go")
+		if err != nil {
+			return err
+		}
+		k1, k2 := -1, -1
+		genOK := false
+		ast.Inspect(cf, func(nd ast.Node) bool {
+			vs, ok := nd.(*ast.ValueSpec)
+			if !ok || len(vs.Names) != 1 || vs.Names[0].Name != "newConnection" || len(vs.Values) != 1 {
+				return true
+			}
+			fl, ok := vs.Values[0].(*ast.FuncLit)
+			if !ok {
+				return true
+			}
+			idx := 0
+			for _, f := range fl.Type.Params.List {
+				for _, n := range f.Names {
+					if n.Name == "clientDestConnID" {
+						k1 = idx
+					}
+					if n.Name == "srcConnID" {
+						k2 = idx
+					}
+					idx++
+				}
+			}
+			ast.Inspect(fl.Body, func(n2 ast.Node) bool {
+				ce, ok := n2.(*ast.CallExpr)
+				if !ok {
+					return true
+				}
+				if id, ok := ce.Fun.(*ast.Ident); ok && id.Name == "newConnIDGenerator" && len(ce.Args) >= 3 {
+					genOK = types.ExprString(ce.Args[1]) == "srcConnID" && types.ExprString(ce.Args[2]) == "&clientDestConnID"
+				}
+				return true
+			})
+			return false
+		})
+		sf, err := parse("server.go")
+		if err != nil {
+			return err
+		}
+		var newConnArgs, addArgs []string
+		ast.Inspect(sf, func(nd ast.Node) bool {
+			ce, ok := nd.(*ast.CallExpr)
+			if !ok {
+				return true
+			}
+			if se, ok := ce.Fun.(*ast.SelectorExpr); ok {
+				if se.Sel.Name == "newConn" {
+					newConnArgs = nil
+					for _, a := range ce.Args {
+						newConnArgs = append(newConnArgs, types.ExprString(a))
+					}
+				}
+				if se.Sel.Name == "AddWithConnID" {
+					addArgs = nil
+					for _, a := range ce.Args {
+						addArgs = append(addArgs, types.ExprString(a))
+					}
+				}
+			}
+			return true
+		})
+		glue := genOK && k1 >= 0 && k2 >= 0 && len(newConnArgs) > k1 && len(newConnArgs) > k2 && len(addArgs) >= 2 &&
+			newConnArgs[k1] == addArgs[0] && newConnArgs[k2] == addArgs[1]
+		w.P("/-- connection.go newConnection + server.go: the generator of a server connection is created with exactly the two connection IDs that Transport.AddWithConnID routes to it -/")
+		w.P("def serverGeneratorTracksRoutedIDs : Bool := %v", glue)
+
+		// 7. path_manager.go: `const maxPaths = <int>`, `const pathTimeout = <int> * time.Second`
+		pmf, err := parse("path_manager.go")
+		if err != nil {
+			return err
+		}
+		maxPaths, pathTimeout := "", ""
+		for _, d := range pmf.Decls {
+			gd, ok := d.(*ast.GenDecl)
+			if !ok || gd.Tok != token.CONST {
+				continue
+			}
+			for _, sp := range gd.Specs {
+				vs := sp.(*ast.ValueSpec)
+				for i, n := range vs.Names {
+					if i >= len(vs.Values) {
+						continue
+					}
+					switch n.Name {
+					case "maxPaths":
+						if v, err := evalInt(vs.Values[i]); err == nil {
+							maxPaths = v
+						}
+					case "pathTimeout":
+						if be, ok := vs.Values[i].(*ast.BinaryExpr); ok && be.Op == token.MUL {
+							if types.ExprString(be.Y) == "time.Second" {
+								if v, err := evalInt(be.X); err == nil {
+									pathTimeout = v + "000000000"
+								}
+							}
+						}
+					}
+				}
+			}
+		}
+		if maxPaths == "" || pathTimeout == "" {
+			return fmt.Errorf("path_manager.go: maxPaths / pathTimeout not found in the expected shape")
+		}
+		w.P("/-- path_manager.go -/")
+		w.P("def maxPaths : Int := %s", maxPaths)
+		w.P("/-- path_manager.go (nanoseconds) -/")
+		w.P("def pathTimeout : Int := %s", pathTimeout)
 
 		w.P("/-- u_parrot.go: every `tls.ActiveConnectionIDLimit(n)` of the built-in QUIC specs (a spec without it advertises the default) -/")
 		w.P("def parrotAdvertisedLimits : List Int := [%s]", strings.Join(parrot, ", "))
